@@ -190,8 +190,8 @@ func matchReply(exp J, obs *Reply, ctx *MatchCtx) bool {
 			return false
 		}
 		return isSubseq(obs.Str, jBytes(exp["a"])) && isSubseq(obs.Str, jBytes(exp["b"]))
-	case "dead":
-		return false // only ever matched through the "no reply" path
+	case "dead", "misframed":
+		return false // only ever matched through the "no reply" / framing paths
 	case "hello":
 		// HELLO reply: a map (RESP3) or flat array (RESP2) of server properties; "proto" must be the negotiated version
 		if !isArrayLike(obs) && obs.Kind != '%' {
